@@ -7,14 +7,31 @@ TARGET = os.path.join(WORK, 'runner-target')
 _built = {}
 
 
+def runner_dir():
+    """the runner crate depends on /repo by path; for an alternate VERIF_REPO (scratch experiments only) a patched copy is used"""
+    if os.path.realpath(REPO) == '/repo':
+        return RUNNER_DIR
+    import shutil
+    d = os.path.join(WORK, 'runner-src')
+    os.makedirs(os.path.join(d, 'src'), exist_ok=True)
+    toml = open(os.path.join(RUNNER_DIR, 'Cargo.toml')).read().replace('path = "/repo"', 'path = "%s"' % os.path.realpath(REPO))
+    if not os.path.exists(os.path.join(d, 'Cargo.toml')) or open(os.path.join(d, 'Cargo.toml')).read() != toml:
+        open(os.path.join(d, 'Cargo.toml'), 'w').write(toml)
+    shutil.copy(os.path.join(RUNNER_DIR, 'src', 'main.rs'), os.path.join(d, 'src', 'main.rs'))
+    if os.path.exists(os.path.join(RUNNER_DIR, 'Cargo.lock')):
+        shutil.copy(os.path.join(RUNNER_DIR, 'Cargo.lock'), os.path.join(d, 'Cargo.lock'))
+    return d
+
+
 def build(profile='dev'):
     key = (profile, src_hash())
     if key in _built:
         return _built[key]
+    RUNNER = runner_dir()
     env = dict(os.environ)
     env.update(RUSTUP_TOOLCHAIN='1.81.0', CARGO_NET_OFFLINE='true', CARGO_TARGET_DIR=TARGET)
     cmd = ['cargo', 'build', '--offline', '--quiet'] + (['--release'] if profile == 'release' else [])
-    r = subprocess.run(cmd, cwd=RUNNER_DIR, env=env, capture_output=True, text=True)
+    r = subprocess.run(cmd, cwd=RUNNER, env=env, capture_output=True, text=True)
     if r.returncode != 0:
         sys.stderr.write('runner build failed (%s):\n%s\n' % (profile, r.stderr[-3000:]))
         raise SystemExit(2)
